@@ -496,8 +496,9 @@ class Evaluator(object):
             hit = prog.lookup_method(self.cls, parts[1])
             if hit is not None and parts[1] not in known["classes"].get(hit[0].qual, [parts[1]]):
                 owner, fdef, bound = hit[0], hit[1], True
-            elif hit is None:
-                # self._helper(...) with `_helper = SomeClass()` a class-level instance of a class of the program: its __call__
+            elif hit is None and parts[1].startswith("_"):
+                # self._helper(...) with `_helper = SomeClass()` a PRIVATE class-level instance of a class of the program: its __call__
+                # (public ones such as Metric.aggregator are replaced per instance and keep their own meaning in the rules)
                 av = prog.lookup_attr(self.cls, parts[1])
                 if av is not None and isinstance(av[1], ast.Call) and not av[1].args and not av[1].keywords:
                     cq = av[0].module.resolve(dotted(av[1].func) or "") if dotted(av[1].func) else None
